@@ -8,6 +8,7 @@ import LianVerif.Drv.Lru
 import LianVerif.Drv.Loader
 import LianVerif.Drv.MapLoader
 import LianVerif.Drv.Cfg
+import LianVerif.Drv.Determinism
 
 open Lean LianVerif.Drv
 
@@ -20,6 +21,7 @@ def dispatch (j : Json) : Except String Json := do
   | "maploader" => LianVerif.Drv.MapLoader.handle j
   | "cfg" => LianVerif.Drv.Cfg.handleCfg j
   | "cfgcheck" => LianVerif.Drv.Cfg.handleCheck j
+  | "determinism" => LianVerif.Drv.Determinism.handle j
   | _ => throw s!"unknown model {m}"
 
 partial def loop (hin hout : IO.FS.Stream) : IO Unit := do
